@@ -317,8 +317,12 @@ class C10(Property):
 
     # ------------------------------------------------------------------ implementation
     def impl(self, case):
-        from boltons import listutils
-        saved = listutils.BarrelList._size_factor
+        try:
+            from boltons import listutils, queueutils  # noqa: F401
+            saved = listutils.BarrelList._size_factor
+        except Exception as e:   # a broken module is an observation, not a crash of the check
+            x = 'X' + exc_name(e)
+            return {'out': [x], 'maxlists': 1} if case['k'] == 'B' else {'S': [x], 'H': [x], 'lists_at_end': 1}
         listutils.BarrelList._size_factor = case['sf']
         try:
             if case['k'] == 'B':
